@@ -12,7 +12,7 @@ SUMMARY = {
  "C04": ("`mode`, `combineDefault`, `combineDefault2` (complete, finite domains), `Disjunction.Default`, `finalizeDisjunctions` (0 ≤ NumDefaults ≤ len, no hole), `appendDisjunct` (default mark never lost/invented when a duplicate is dropped), `equalTerminal` (bounds equal only with the same operator)", "`Equal`, `equalPartialNode`, `freeDisjunct`, `mergeCloseInfo` frames"),
  "C05": ("label packing/classification (12 functions, `arith bv`), `allowedInClosed`, `updateArcType`, `hasEvidenceForAll`, `hasEvidenceForOne` (direct evidence; no evidence without embedding scope), `lookupSet`; `ConstraintFromToken`/`ArcType.Token` inverse; lemma partition", "`containsDefID`, the embedding part of the evidence rule"),
  "C06": ("`BinOp` comparison arms, `cmpTonode`, `numOp`, `Add/Sub/Mul/Quo`, `exactIntOp`, `newNum`, `intDivOp`, `IntDiv/IntMod/IntQuo/IntRem`; `literal.init#1` (unlimited precision context) and `NumInfo.decimal` (literal × multiplier is exact)", "apd incl. BigInt, `internal.Context.Quo`"),
- "C07": ("`boundSimplifier.add`, `.expr`, `wrapBin`, `MatchBuiltinRange`, `BoundValue.Kind`; `literal.appendEscaped`, `appendEscapedRune`, `singleLineHashCount`; `ConstraintFromToken`/`ArcType.Token` inverse", "`exporter.expr`, ast constructors, utf8"),
+ "C07": ("`boundSimplifier.add`, `.expr`, `wrapBin`, `MatchBuiltinRange`, `BoundValue.Kind`; `literal.appendEscaped`, `appendEscapedRune`, `singleLineHashCount`; `ConstraintFromToken`/`ArcType.Token` inverse; `exporter.stringLabel`, `ast.NewStringLabel`, `StringLabelNeedsQuoting` (label class survives, `#x`/`_x` always quoted)", "`exporter.expr`, `IsValidIdent`, ast constructors, utf8"),
  "C09": ("11 `token` functions, 20 `scanner` functions incl. `Scan` (window invariant, every index/slice in bounds); lemma Pos/Offset inverse; `literal.appendEscaped` (raw byte escape only for one invalid byte), `appendEscapedRune` (byte escape only for ASCII), `singleLineHashCount` (no early close, no escape, no triple quote); the parser's panic protocol (`errf`, `incNestLevel`, `closeList`, `closeNode` panic only with `panicking` set; `checkExpr`'s panic unreachable via `unparen`)", "`scanString`, `scanEscape`, `errf`, `AddLine`, utf8"),
  "C14": ("all of `internal/mod/semver` (11 functions) incl. recursive prerelease spec; 8 order lemmas; `mvs.Graph.Selected`, `Graph.Require` (monotone, sufficient, minimal for any total preorder), worker closure of `buildList` (every requirement is queued), `par.Work.Add`/`init` under a monitor", "bytewise order axioms, `vcmp` total preorder, queue ownership"),
  "C15": ("`fileNameOK`, `checkElem`, `checkPath`, `CheckFilePath`, `CheckedFiles.Err`, `CheckZip` (+closure; names and the size accounting), `Unzip` (effects), the `WalkDir` callback of `listFilesInDir` (SkipDir only for directories, every entry accounted for)", "os/io/zip/path/strings, WalkDir"),
